@@ -4,7 +4,7 @@
     statement about the borsh crate; it is decided by differential execution on compiled
     items, and the bytes are compared with the Gallina Borsh universe below on every run. *)
 From SplVerif Require Import Lib.Base Tlv.Model Tlv.Spec Tlv.Corollaries.
-From SplVerif Require Import AccountRealloc.Model AccountRealloc.Proofs AccountRealloc.Borsh.
+From SplVerif Require Import AccountRealloc.Model AccountRealloc.Proofs AccountRealloc.Borsh AccountRealloc.History.
 Local Open Scope N_scope.
 
 (** on an account holding the canonical slab of [es] (any number of entries, repeated
@@ -49,4 +49,47 @@ Example C15_nonvacuous :
   fst (realloc_and_pack acct t2 0 [x09;x09;x09;x09;x09] false)
     = {| a_data := render 47 [(t1, [x0a; x0b]); (t2, [x09;x09;x09;x09;x09]); (t1, [x0c])]; a_orig := 45 |} /\
   a_data (fst (realloc_and_pack acct t2 0 [x07] false)) = render 43 [(t1, [x0a; x0b]); (t2, [x07]); (t1, [x0c])].
+Proof. cbv zeta. split; vm_compute; reflexivity. Qed.
+
+(** one operation against its specification [s_rp] on (account length, entry list): same account,
+    Ok exactly when the specification accepts, and the zero spare tail keeps its size.  The old
+    value [old] is whatever the slot holds -- its length is the slot's, also when the slot is
+    larger than the value last packed into it *)
+Theorem C15_step_refines : forall acct n es o,
+  a_data acct = render n es -> fits n es -> wf_op o ->
+  N.of_nat n <= a_orig acct + MAX_PERMITTED_DATA_INCREASE ->
+  let '((n', es'), ok) := s_rp (a_orig acct) (n, es) o in
+  fst (realloc_and_pack acct (o_tag o) (o_rep o) (o_enc o) (o_partial o)) = {| a_data := render n' es'; a_orig := a_orig acct |} /\
+  (if ok then snd (realloc_and_pack acct (o_tag o) (o_rep o) (o_enc o) (o_partial o)) = Ok tt
+   else exists c, snd (realloc_and_pack acct (o_tag o) (o_rep o) (o_enc o) (o_partial o)) = Err c) /\
+  fits n' es' /\ N.of_nat n' <= a_orig acct + MAX_PERMITTED_DATA_INCREASE /\
+  spare (n', es') = spare (n, es).
+Proof. exact rp_step. Qed.
+
+(** every history: after ANY sequence of replacements (growing, shrinking and refused ones mixed,
+    no bound on its length) the account is the canonical slab of the list the specification
+    predicts, and its spare tail is the one it started with -- so its length has moved by exactly
+    the sum of the accepted size differences *)
+Theorem C15_every_history : forall ops acct n es,
+  a_data acct = render n es -> fits n es -> Forall wf_op ops ->
+  N.of_nat n <= a_orig acct + MAX_PERMITTED_DATA_INCREASE ->
+  let st' := run_spec (a_orig acct) (n, es) ops in
+  run_impl acct ops = {| a_data := render (fst st') (snd st'); a_orig := a_orig acct |} /\
+  fits (fst st') (snd st') /\ spare st' = spare (n, es).
+Proof. exact rp_history. Qed.
+Theorem C15_length_after_history : forall ops acct n es,
+  a_data acct = render n es -> fits n es -> Forall wf_op ops ->
+  N.of_nat n <= a_orig acct + MAX_PERMITTED_DATA_INCREASE ->
+  let st' := run_spec (a_orig acct) (n, es) ops in
+  length (a_data (run_impl acct ops)) = (length (enc (snd st')) + (n - length (enc es)))%nat.
+Proof. exact rp_history_length. Qed.
+Example C15_history_nonvacuous :
+  let t1 := [x01;x01;x01;x01;x01;x01;x01;x01] in let t2 := [x02;x02;x02;x02;x02;x02;x02;x02] in
+  let es := [(t1, [x0a; x0b]); (t2, [x01; x02; x03]); (t1, [x0c])] in
+  let acct := {| a_data := render 45 es; a_orig := 45 |} in
+  let ops := [ {| o_tag := t2; o_rep := 0; o_enc := [x09;x09;x09;x09;x09]; o_partial := false |};
+               {| o_tag := t1; o_rep := 1; o_enc := []; o_partial := false |};
+               {| o_tag := t2; o_rep := 1; o_enc := [x01]; o_partial := false |} ] in
+  run_spec 45 (45%nat, es) ops = (46%nat, [(t1, [x0a; x0b]); (t2, [x09;x09;x09;x09;x09]); (t1, [])]) /\
+  length (a_data (run_impl acct ops)) = 46%nat.
 Proof. cbv zeta. split; vm_compute; reflexivity. Qed.
